@@ -50,6 +50,18 @@ CLAIMED.update({
     ),
 })
 
+CLAIMED["C05"] = dict(
+    text="Proof per edit operation (induction over the edit history): add_atom/new_atom/del_atom (all AtomLike alternatives: atom, "
+         "foreign atom, symbolic index, label, element), connect, append_bond(s)/extend_bonds (own and foreign end atoms), del_bond "
+         "are executed symbolically through the whole cooperative class chain; the class invariant (one coordinate row and one "
+         "numeric charge per atom keyed by atom identity, bonds inside the molecule, parents, indices) is proved on every normal and "
+         "exceptional exit, and failed edits change nothing.",
+    ref="DESIGN.md section 3 C05",
+    note="Values (elements, labels, coordinates, charges, indices, enum alternatives) are symbolic; container sizes are fixed per unit "
+         "(0, 1, 3 atoms; 0..3 bonds incl. parallel bonds) -- bounded in size, unbounded in values; numpy row operations are a trusted "
+         "model; remove_substituent/add_implicit_hydrogens are covered through C16/C15 contracts, Substructure/Conformer views in C14.",
+)
+
 NOT_APPLICABLE = {
 }
 
